@@ -94,8 +94,8 @@ func init() {
 		// ---- strategy/trend
 		Pipe{Name: "strategy/trend.AlligatorStrategy", Class: "strategy", Inputs: snapIn, Params: ps("jaw", "teeth", "lip"),
 			Default: cfgOf(strend.DefaultAlligatorStrategyJawPeriod, strend.DefaultAlligatorStrategyTeethPeriod, strend.DefaultAlligatorStrategyLipPeriod),
-			// Jaw is the slowest, Teeth the medium, Lip the fastest moving average.
-			Valid:  func(c []int) bool { return c[2] <= c[1] && c[1] <= c[0] },
+			// Jaw is documented as the slowest, Teeth the medium, Lip the fastest moving average, but Compute synchronises
+			// all three to CommonPeriod, whichever is the longest: no ordering constraint
 			Fields: []string{"Close"},
 			Make: func(cfg []int) Inst {
 				s := strend.NewAlligatorStrategyWith(cfg[0], cfg[1], cfg[2])
